@@ -280,4 +280,9 @@ example :
   refine ⟨by decide, ?_⟩
   exact ⟨_, _, rfl, by decide, by decide⟩
 
+
+/-- every source fact this property's model consumes was located in the current source by tools/extract (a fact that is not
+found is emitted with a placeholder value; this obligation then fails and the check uses the reference model) -/
+theorem source_facts_located_c05 : JsonC.Generated.factsFound_heap = true := by decide
+
 end JsonC.Heap
